@@ -1469,7 +1469,7 @@ fn tcp_ep(w: &NetWorld, name: &str) -> (std::net::SocketAddr, bool) {
 fn ask_ping(addr: std::net::SocketAddr, ping: &[u8]) -> bool {
     use std::io::{Read, Write};
     if let Ok(mut s) = std::net::TcpStream::connect(addr) {
-        let _ = s.set_read_timeout(Some(std::time::Duration::from_secs(5)));
+        let _ = s.set_read_timeout(Some(std::time::Duration::from_secs(10)));
         if s.write_all(ping).is_ok() {
             let mut buf = Vec::new();
             let mut tmp = [0u8; 4096];
@@ -1486,7 +1486,8 @@ fn ask_ping(addr: std::net::SocketAddr, ping: &[u8]) -> bool {
 /// timeout may legitimately drop a connection whose first bytes arrive late (this process descheduled between connect and
 /// write), so there a few fresh connections are tried — the statement is about the endpoint, not about one connection.
 fn still_serves(addr: std::net::SocketAddr, has_read_timeout: bool, ping: &[u8]) -> bool {
-    for _ in 0..(if has_read_timeout { 6 } else { 1 }) {
+    // (a machine with a load average of 70 and a one-worker runtime can take seconds to answer: two tries even without a timeout knob)
+    for _ in 0..(if has_read_timeout { 6 } else { 2 }) {
         HEARTBEAT.fetch_add(1, std::sync::atomic::Ordering::Relaxed);
         if ask_ping(addr, ping) { return true; }
     }
